@@ -8,7 +8,13 @@ compared with
   * the Lean gateway formats (m_wire `spec enc` / `spec dec`, the property's oracle):
     a width the gateway cannot carry must be refused, every other packet must be
     byte-identical to the format; a well-formed received packet must mean what the
-    format says; sequence numbers must stay in 1..255 without immediate repetition."""
+    format says; sequence numbers must stay in 1..255 without immediate repetition;
+  * UniPi receive side (hidden gateway state): the real `SyncUnipiDALIDriver.send` runs against a Modbus register
+    backend that plays the registers the format's gateway shows (m_wire `spec unipolls`: 16-bit receive counter at every
+    value near the wrap and at random values, stale registers, reply before poll 0..5, echo first, Compare + framing
+    error) and against a session gateway whose counter persists over many exchanges; compared with the model
+    (`unirecv`) and with what the exchange denotes (`spec unirecv`): an answered query returns its value whatever
+    the counter."""
 import logging
 import sys
 import types
@@ -31,14 +37,14 @@ TRUSTED = ["hand-written models Model/Wire.lean of the nine drivers' encoders/de
 ASSUMPTIONS = ["frames satisfy the Frame invariant (0 <= data < 2^bits, C05)", "received bytes are 0..255"]
 PARTIAL = ("the receive loop of hid.tridonic _send_raw is proved for report sequences with exactly the prescribed number of transmission confirmations and exactly one answering report, in any order, interleaved with meaningless reports (tridonic_receive_wellformed; tridonic_receive_waits while one is missing) — sequences with surplus confirmations or several answers (where the loop waits forever / keeps the last answer seen before completion) are only covered by the model tie; twice_iff for the ATX hat holds for 16-bit commands only because the hat has no send-twice letter for other widths (stated as: prefix 't' iff sendtwice and 16 bits); pinned formats (see trusted base); the SCI transmit frame puts a 16-bit frame into the HI/MI data bytes while the "
            "driver's own receiver reads 16-bit frames from MI/LO — recorded as a candidate finding, not adjudicated without the "
-           "vendor document (sci_frame_recoverable states the transmit alignment the code uses); the UniPi driver's _get_sn is dead code (always 1) and carries no theorem; ATX int(.., 16) "
+           "vendor document (sci_frame_recoverable states the transmit alignment the code uses); the UniPi receive theorems are about the gateway model of Spec/Gateways (one frame = counter + 1 mod 2^16, pinned) with a single backward frame arriving before one of the six polls; several frames per exchange (echo first), Compare with the framing-error counter and frames arriving between transmission and the sampling of the counter (lost by design of the driver) are covered by the tie only / not at all; the UniPi driver's _get_sn is dead code (always 1) and carries no theorem; ATX int(.., 16) "
            "leniencies (sign, blanks, underscores) are outside the modelled well-formed answers (atx_decode_wellformed covers <letter><hex><hex> with/without newline, either case)")
 LEVEL_TEXT = ("Lean 4 theorems, for every frame of a carried width and every flag combination (universally quantified, no enumeration): each driver model's packet equals "
               "the gateway format (…_encode_conforms), has the fixed length (…_length_fixed, atx_length_exact: two hex digits per frame byte), a valid checksum "
               "(luba/sci_checksum_valid for the encoders, luba/sci_format_checksum_valid for the formats, via xor-fold lemmas), the send-twice "
               "flag/bit/prefix/repetition exactly when the command requires it (…_twice_iff for all nine drivers), the frame recoverable big-endian from the prescribed field together with the width/mode code "
               "(…_frame_recoverable for all nine, frame_bytes_recoverable for every width), and every other width is refused "
-              "(…_refuses); every well-formed received packet decodes to what the format denotes (…_decode_wellformed for hid.tridonic — including the receive loop over the reports of one command, tridonic_receive_wellformed/_waits —, hid.hasseb, daliserver, ATX, legacy Tridonic, legacy hasseb, UniPi); the "
+              "(…_refuses); every well-formed received packet decodes to what the format denotes (…_decode_wellformed for hid.tridonic — including the receive loop over the reports of one command, tridonic_receive_wellformed/_waits —, hid.hasseb, daliserver, ATX, legacy Tridonic, legacy hasseb, UniPi); the UniPi polling loop takes a reply iff the receive counter differs from the sample, for all counters in either order (unipi_reply_detected_iff/_across_wrap), at any of its six polls (unipi_poll_reply_any_position), so an answered query returns its value for every value 0..65535 of the gateway's hidden receive counter (unipi_answered_query_returns_value; unipi_unanswered_query, unipi_no_reply_expected); the "
               "three sequence-number generators stay in 1..255 and never repeat immediately, by induction on the number of "
               "sends (…_seq_range, …_seq_no_immediate_repeat).")
 LEVEL_NOTE = ("Trusted: Lean kernel; the hand-written models correspond to the drivers as far as the correspondence suite "
